@@ -18,7 +18,9 @@ CODES = [
 TEXT_PARTS = ["Done.", "ok", "OK", "NO", "BYE", "{5}", "{5+}", '"', "\\", " ", "(", ")", "é", "€", "line", "\r\n", "error:",
               "ACTIVE", "a", "Z", "0", "'", "/", "*"]
 NAME_PARTS = ["a", "b", "Z", "0", "_", "-", ".", " ", '"', "\\", "é", "€", "ACTIVE", "OK", "NO", "{3}", "{", "}", "(", ")", "script",
-              "\t", "active", " ACTIVE", "😀", "'"]
+              "\t", "active", " ACTIVE", "😀", "'",
+              # text that a Unicode normalisation or case folding would change
+              "e\u0301", "\u212b", "a\u0300", "\ufb01", "\u1100\u1161", "No", "Ok", "bye"]
 LINE_POOL = [b"OK", b'OK "done"', b'NO "x"', b"NO", b"BYE", b"{5}", b"{5+}", b'"a" ACTIVE', b"", b"keep;", b'require "fileinto";',
              "# résumé €".encode("utf-8"), b"x" * 300, b'"quoted"', b"{0}", b"OK (WARNINGS) \"w\"", b" leading space", b"\ttab",
              b"if true {", b"}", b"ACTIVE", b".", b"text:", b"a\x0cb", b"x\x0by", "a\u2028b".encode("utf-8"), "\ufeffbom".encode("utf-8"),
